@@ -98,6 +98,31 @@ func ruleDrainBeforeTerminal(c *Ctx, r *R) {
 								if _, isRet := in.(*ssa.Return); isRet {
 									break
 								}
+								// the non-blocking receive lives in a helper: `if x, ok := tryRecv(s.c); ok { return x, nil }`
+								if call, ok := in.(*ssa.Call); ok {
+									if cal := staticCallee(&call.Call); cal != nil && c.inModule(cal) {
+										if ci, ok := tryRecvHelper(cal); ok && ci < len(call.Call.Args) && fieldOfChan(call.Call.Args[ci]) == df {
+											var xv, okv ssa.Value
+											for _, ref := range refsOf(call) {
+												if ex, ok := ref.(*ssa.Extract); ok {
+													if ex.Index == 0 {
+														xv = ex
+													} else if ex.Index == 1 {
+														okv = ex
+													}
+												}
+											}
+											if iff, ok := tbody.Instrs[len(tbody.Instrs)-1].(*ssa.If); ok && okv != nil && iff.Cond == okv {
+												body := tbody.Succs[0]
+												if ret, ok := body.Instrs[len(body.Instrs)-1].(*ssa.Return); ok && len(ret.Results) == 2 && ret.Results[0] == xv && isNilConst(ret.Results[1]) {
+													okDrain = true
+												} else {
+													detail = "the drained item is not returned with a nil error"
+												}
+											}
+										}
+									}
+								}
 								s2, ok := in.(*ssa.Select)
 								if !ok || s2.Blocking {
 									continue
@@ -611,6 +636,27 @@ func rulePipePublish(c *Ctx, r *R) {
 						}
 					}
 				}
+				// … or reaches a return through a small helper that passes it on (errOrEnd(*s.senderErr): the error itself
+				// when there is one, End otherwise)
+				if !found {
+					want := valueProv(ld, provEnv{}).String()
+					instrs(sf, func(b2 *ssa.BasicBlock, j int, in2 ssa.Instruction) {
+						ret, ok := in2.(*ssa.Return)
+						if !ok || len(ret.Results) == 0 {
+							return
+						}
+						e := symOf(ret.Results[len(ret.Results)-1], provEnv{})
+						nodes := []*sx{e}
+						if e.op == "phi" {
+							nodes = append(nodes, e.args...)
+						}
+						for _, nd := range nodes {
+							if nd.op == "leaf" && nd.s == want && e.inl != "" {
+								found = true
+							}
+						}
+					})
+				}
 				r.ok(found, name+"|return-senderErr#"+itoa(nreads), ld.Pos(), "the error read from *senderErr is not the error operand of a return: the sender's close error would be replaced or dropped")
 			})
 		}
@@ -631,19 +677,19 @@ func rulePipePublish(c *Ctx, r *R) {
 			}
 		}
 		for _, ef := range endFns {
-			instrs(ef, func(b *ssa.BasicBlock, i int, in ssa.Instruction) {
-				ret, ok := in.(*ssa.Return)
-				if !ok || len(ret.Results) != 2 {
-					return
+			for _, d := range deepInstrs(ef, 1) {
+				ret, ok := d.in.(*ssa.Return)
+				if !ok || len(ret.Results) == 0 {
+					continue
 				}
-				if strings.HasSuffix(path(ret.Results[1]), "End") {
-					for _, g := range guardsOf(b) {
-						if cf, ok := g.asCmp(); ok && cf.op == token.EQL && isNilConst(cf.y) && strings.HasSuffix(path(cf.x), ".senderErr") {
+				if strings.HasSuffix(path(ret.Results[len(ret.Results)-1]), "End") {
+					for _, g := range guardsOf(d.in.Block()) {
+						if cf, ok := g.asCmp(); ok && cf.op == token.EQL && isNilConst(cf.y) && strings.HasSuffix(path(argOf(cf.x, d.calls)), ".senderErr") {
 							okEnd = true
 						}
 					}
 				}
-			})
+			}
 		}
 		r.ok(okEnd, "stream.pipeStream.Next|end-iff-nil", nx.Pos(), "End must be reported exactly on the path where the sender's close error is nil")
 	}
@@ -727,6 +773,16 @@ func rulePipeWhoMayClose(c *Ctx, r *R) {
 				}
 			}
 		}
+		// … or the value a try-receive helper took from the data channel
+		if ok && !good {
+			if call, isCall := ex.Tuple.(*ssa.Call); isCall && ex.Index == 0 {
+				if cal := staticCallee(&call.Call); cal != nil && c.inModule(cal) {
+					if ci, ok := tryRecvHelper(cal); ok && ci < len(call.Call.Args) && fieldOfChan(call.Call.Args[ci]) == "c" {
+						good = true
+					}
+				}
+			}
+		}
 		r.ok(good, "stream.pipeStream.Next|value-source#"+itoa(k), retPos(ret), "a value returned with a nil error must be one received from the data channel")
 	})
 	// Send / TrySend: the only data effect is a send of the parameter on c
@@ -798,4 +854,62 @@ func derivedFromCtx(o ssa.Value, p ssa.Value, d int) bool {
 		}
 	}
 	return true
+}
+
+// tryRecvHelper: cal's body is one non-blocking select with a single receive arm on its channel parameter #ci; the arm returns
+// (received value, true) and every other return reports false.
+func tryRecvHelper(cal *ssa.Function) (int, bool) {
+	cal = origin(cal)
+	var sel *ssa.Select
+	n := 0
+	instrs(cal, func(b *ssa.BasicBlock, i int, in ssa.Instruction) {
+		if s2, ok := in.(*ssa.Select); ok {
+			sel = s2
+			n++
+		}
+		switch in.(type) {
+		case *ssa.Send, *ssa.Go, *ssa.Defer:
+			n += 2
+		}
+		if u, ok := in.(*ssa.UnOp); ok && u.Op == token.ARROW {
+			n += 2
+		}
+	})
+	if n != 1 || sel.Blocking || len(sel.States) != 1 || sel.States[0].Dir != types.RecvOnly {
+		return 0, false
+	}
+	ci := -1
+	for i, p := range cal.Params {
+		if sel.States[0].Chan == ssa.Value(p) {
+			ci = i
+		}
+	}
+	if ci < 0 {
+		return 0, false
+	}
+	body := selectArmBody(sel, 0)
+	rv := recvValue(sel, 0)
+	good, sawTrue := true, false
+	instrs(cal, func(b *ssa.BasicBlock, i int, in ssa.Instruction) {
+		ret, ok := in.(*ssa.Return)
+		if !ok {
+			return
+		}
+		if len(ret.Results) != 2 {
+			good = false
+			return
+		}
+		k, isK := ret.Results[1].(*ssa.Const)
+		if !isK || k.Value == nil {
+			good = false
+			return
+		}
+		if k.Value.String() == "true" {
+			if body == nil || !(b == body || body.Dominates(b)) || ret.Results[0] != rv {
+				good = false
+			}
+			sawTrue = true
+		}
+	})
+	return ci, good && sawTrue
 }
